@@ -4,6 +4,8 @@
 # prints exit codes and VIOLATION lines, and restores the tree. Evidence files
 # touched by the runs are restored too (they must describe the unchanged tree).
 set -uo pipefail
+# Sensitivity runs stop at the first violation (MUTATE_FULL=1 runs the whole quick check).
+[ -n "${MUTATE_FULL:-}" ] || export VERIF_FASTFAIL=1
 V=/verif
 patch="$1"; shift
 cd /repo
